@@ -174,7 +174,9 @@ class CSSVariablesDeclaration(css_parser.util._NewBase):
                     if nname in newvars:
                         # replace var with same name
                         for i, it in enumerate(newseq):
-                            if normalize(it.value[0]) == nname:
+                            # (newseq holds comments too)
+                            if 'var' == it.type and \
+                               normalize(it.value[0]) == nname:
                                 newseq.replace(i,
                                                (nameitem.value, item.value),
                                                'var',
